@@ -20,7 +20,7 @@ ASSUMPTIONS = ['feeds are made large enough that neither side is infeasible (X_a
 
 
 def required(tier):
-    return ['add-vs-parallel', 'sub-inverse', 'scale', 'inplace', 'new-object', 'operands-unchanged', 'set-item-X', 'backwards', 'set-copy', 'reduce']
+    return ['add-vs-parallel', 'sub-inverse', 'scale', 'inplace', 'new-object', 'operands-unchanged', 'set-item-X', 'backwards', 'set-copy', 'reduce', 'sum-of-three', 'basis-setter', 'set+set', 'set-item-inplace']
 
 
 def gen_case(rng):
@@ -169,8 +169,11 @@ def run_case(case, rec):
             if lhs is not None and rhs is not None:
                 d = differ(lhs, rhs, scale)
                 rec.check(not d, 'inplace', f'iadd/{tg}', f'(a += b) acts differently from a + b: {d[:4]}')
-        ip = s.copy()
+        ip = s.copy(); sb4 = snap(b)
         r = guarded('inplace', lambda: ip.__isub__(b))
+        if r is not None:
+            rec.check(r is ip, 'inplace', f'isub/identity/{tg}', '-= returned another object')
+            rec.check(same_snap(snap(b), sb4), 'operands-unchanged', f'isub/b/{tg}', '-= changed its right operand')
         if r is not None and m is not None and a.X > 0 and b.X > 0:
             lhs = guarded('inplace', lambda: apply(ip, case, th)); rhs = guarded('inplace', lambda: apply(m, case, th))
             if lhs is not None and rhs is not None:
@@ -272,6 +275,90 @@ def run_case(case, rec):
                     rec.check(not d, 'operands-unchanged', f'reduce/set-acts/{tg}', f'after reduce() the original set acts differently from before: {d[:4]}')
         rec.check(all(same_snap(snap(x), s0) for x, s0 in zip(members, msn)), 'set-copy', f'members-changed/{cls.__name__}',
                   'building / copying / re-basing a reaction set changed the member reactions it was built from')
+    # ---- further members of the operation family (coverage audit): sums, triples, set + set, basis setter, in-place arithmetic on set items, X write paths
+    bb = b if same_basis else b.copy(basis=a._basis)
+    cc = c if c._basis == a._basis else c.copy(basis=a._basis)
+    sn = (snap(a), snap(bb), snap(cc))
+    tri = guarded('add', lambda: sum([a, bb, cc]))
+    if tri is not None:
+        rec.hit('sum-of-three')
+        unchanged('sum', (a, bb), sn[:2]); rec.check(same_snap(snap(cc), sn[2]), 'operands-unchanged', f'sum/c/{tg}', 'sum([a, b, c]) changed c'); fresh('sum', tri, (a, bb, cc))
+        lhs = guarded('add-vs-parallel', lambda: apply(tri, case, th)); rhs = guarded('add-vs-parallel', lambda: apply(tmo.ParallelReaction([a.copy(), bb.copy(), cc.copy()]), case, th))
+        if lhs is not None and rhs is not None:
+            d = differ(lhs, rhs, scale)
+            rec.check(not d, 'add-vs-parallel', f'three/{tg}', f'sum([a,b,c])(feed) != ParallelReaction([a,b,c])(feed): {d[:4]}')
+        if cc.X > 0 and a.X + bb.X > 0:
+            m3 = guarded('sub', lambda: tri - cc); ab = guarded('add', lambda: a + bb)
+            if m3 is not None and ab is not None:
+                lhs = guarded('sub-inverse', lambda: apply(m3, case, th)); rhs = guarded('sub-inverse', lambda: apply(ab, case, th))
+                if lhs is not None and rhs is not None:
+                    d = differ(lhs, rhs, scale)
+                    rec.check(not d, 'sub-inverse', f'three/{tg}', f'((a+b+c)-c)(feed) != (a+b)(feed): {d[:4]}')
+    for nm, fn in (('add-zero', lambda: a + 0), ('radd-zero', lambda: 0 + a), ('sub-zero', lambda: a - 0)):
+        sa6 = snap(a); r0 = guarded('new-object', fn)
+        if r0 is not None: fresh(nm, r0, (a,)); unchanged(nm, (a,), (sa6,)); rec.check(same_snap(snap(r0), sa6), 'new-object', f'{nm}/value/{tg}', f'{nm} is not a copy of a')
+    # basis setter on a copy: the original stays, the re-based reaction acts the same
+    other = 'wt' if a._basis == 'mol' else 'mol'
+    rb = a.copy(); sa7 = snap(a)
+    def setb(): rb.basis = other; return rb
+    if guarded('rebase', setb) is not None:
+        rec.hit('basis-setter')
+        unchanged('basis-setter', (a,), (sa7,))
+        rec.check(not (containers(rb) & containers(a)), 'new-object', f'basis-setter/shared-container/{tg}', 're-based copy shares stoichiometry containers with the original')
+        lhs = guarded('rebase', lambda: apply(rb, case, th)); rhs = guarded('rebase', lambda: apply(a, case, th))
+        if lhs is not None and rhs is not None:
+            d = differ(lhs, rhs, scale)
+            rec.check(not d, 'rebase', tg, f'a copy re-based to {other} through the basis setter acts differently from the original: {d[:4]}')
+    # set + set (item-wise)
+    p_ = guarded('add', lambda: tmo.ParallelReaction([a.copy(), bb.copy()])); q_ = guarded('add', lambda: tmo.ParallelReaction([a.copy() * 0.5, cc.copy()]))
+    if p_ is not None and q_ is not None:
+        sp_, sq_ = snap(p_), snap(q_)
+        pq = guarded('add', lambda: p_ + q_)
+        if pq is not None:
+            rec.hit('set+set')
+            rec.check(same_snap(snap(p_), sp_) and same_snap(snap(q_), sq_), 'operands-unchanged', f'set+set/{tg}', 'ParallelReaction + ParallelReaction changed an operand')
+            rec.check(pq is not p_ and pq is not q_ and not (containers(pq) & (containers(p_) | containers(q_))), 'new-object', f'set+set/{tg}', 'set + set shares containers with an operand')
+            lhs = guarded('add-vs-parallel', lambda: apply(pq, case, th))
+            rhs = guarded('add-vs-parallel', lambda: apply(tmo.ParallelReaction([a.copy(), bb.copy(), a.copy() * 0.5, cc.copy()]), case, th))
+            if lhs is not None and rhs is not None:
+                d = differ(lhs, rhs, scale)
+                rec.check(not d, 'add-vs-parallel', f'set+set/{tg}', f'(p+q)(feed) != the four members in parallel: {d[:4]}')
+    # in-place arithmetic on an item of a set: set and item keep describing the same reaction
+    for op in ('iadd', 'isub', 'imul', 'itruediv'):
+        rs2 = guarded('set-item-inplace', lambda: tmo.ParallelReaction([a.copy(), bb.copy()]))
+        if rs2 is None: break
+        it = rs2[0]
+        if op == 'iadd': ref0 = guarded('add', lambda: a + cc); doit = lambda: it.__iadd__(cc)
+        elif op == 'isub':
+            if not (a.X > cc.X > 0): continue
+            ref0 = guarded('sub', lambda: a - cc); doit = lambda: it.__isub__(cc)
+        elif op == 'imul': ref0 = a * k; doit = lambda: it.__imul__(k)
+        else: ref0 = a / k; doit = lambda: it.__itruediv__(k)
+        scc = snap(cc)
+        if ref0 is None or guarded('set-item-inplace', doit) is None: continue
+        rec.hit('set-item-inplace')
+        rec.check(same_snap(snap(cc), scc), 'operands-unchanged', f'item-{op}/right/{tg}', f'{op} on a set item changed its right operand')
+        lhs = guarded('set-item-inplace', lambda: apply(rs2, case, th)); rhs = guarded('set-item-inplace', lambda: apply(tmo.ParallelReaction([ref0.copy(), bb.copy()]), case, th))
+        if lhs is not None and rhs is not None:
+            d = differ(lhs, rhs, scale)
+            rec.check(not d, 'set-item-inplace', f'{op}/set/{tg}', f'after item {op} the set acts differently from ParallelReaction([a {op} c, b]): {d[:4]} (set X {np.asarray(rs2.X).tolist()})')
+        lhs = guarded('set-item-inplace', lambda: apply(rs2[0].copy(), case, th)); rhs = guarded('set-item-inplace', lambda: apply(ref0, case, th))
+        if lhs is not None and rhs is not None:
+            d = differ(lhs, rhs, scale)
+            rec.check(not d, 'set-item-inplace', f'{op}/item/{tg}', f'after item {op} the item acts differently from a {op} c: {d[:4]}')
+    # X write paths: iteration items, slices, whole-array setter
+    rs3 = guarded('set-item-X', lambda: tmo.ParallelReaction([a.copy(), bb.copy(), cc.copy()]))
+    if rs3 is not None:
+        for n_, it in enumerate(rs3): it.X = 0.011 * (n_ + 1)
+        rec.check(np.allclose(rs3.X, [0.011, 0.022, 0.033], rtol=1e-15), 'set-item-X', 'iter-item-to-set', f'X written through iteration items not visible in the set: {np.asarray(rs3.X).tolist()}')
+        sl = guarded('set-item-X', lambda: rs3[0:2])
+        if sl is not None:
+            sl.X[1] = 0.444
+            rec.check(rs3.X[1] == 0.444 and rs3[1].X == 0.444, 'set-item-X', 'slice-to-set', f'X written through a slice of the set not visible in the set: {np.asarray(rs3.X).tolist()}')
+            rs3.X[0] = 0.555
+            rec.check(sl.X[0] == 0.555, 'set-item-X', 'set-to-slice', 'X written on the set not visible in an earlier slice')
+        def setX(): rs3.X = np.array([0.1, 0.2, 0.3]); return True
+        if guarded('set-item-X', setX): rec.check(rs3[1].X == 0.2 and [i.X for i in rs3] == [0.1, 0.2, 0.3], 'set-item-X', 'setter-to-items', 'set.X = array not visible in the items')
     if all(d['X'] > 0 and len(d['st']) >= 3 for d in case['rx'][:2]): rec.mark_nontrivial(case_hash(case))
 
 
